@@ -240,6 +240,9 @@ std::string ezc3d::c3d::readString(unsigned int nByteToRead, int nByteFromPrevio
 void ezc3d::c3d::readParam(unsigned int dataLenghtInBytes, const std::vector<size_t> &dimension,
                        std::vector<int> &param_data, size_t currentIdx)
 {
+#ifdef MELUND_EZC3D_VERIF
+    MELUND_EZC3D_VERIF_HOOK(2, currentIdx, dimension.size());
+#endif
     for (size_t i = 0; i < dimension[currentIdx]; ++i)
         if (currentIdx == dimension.size()-1)
             param_data.push_back (readInt(dataLenghtInBytes*ezc3d::DATA_TYPE::BYTE));
@@ -250,6 +253,9 @@ void ezc3d::c3d::readParam(unsigned int dataLenghtInBytes, const std::vector<siz
 void ezc3d::c3d::readParam(const std::vector<size_t> &dimension,
                        std::vector<float> &param_data, size_t currentIdx)
 {
+#ifdef MELUND_EZC3D_VERIF
+    MELUND_EZC3D_VERIF_HOOK(2, currentIdx, dimension.size());
+#endif
     for (size_t i = 0; i < dimension[currentIdx]; ++i)
         if (currentIdx == dimension.size()-1)
             param_data.push_back (readFloat());
@@ -283,6 +289,9 @@ size_t ezc3d::c3d::_dispatchMatrix(const std::vector<size_t> &dimension,
                                  std::vector<std::string> &param_data_out, size_t idxInParam,
                                  size_t currentIdx)
 {
+#ifdef MELUND_EZC3D_VERIF
+    MELUND_EZC3D_VERIF_HOOK(2, currentIdx, dimension.size());
+#endif
     for (size_t i = 0; i < dimension[currentIdx]; ++i)
         if (currentIdx == dimension.size()-1){
             std::string tp;
@@ -301,6 +310,9 @@ size_t ezc3d::c3d::_dispatchMatrix(const std::vector<size_t> &dimension,
 void ezc3d::c3d::_readMatrix(const std::vector<size_t> &dimension,
                        std::vector<std::string> &param_data, size_t currentIdx)
 {
+#ifdef MELUND_EZC3D_VERIF
+    MELUND_EZC3D_VERIF_HOOK(2, currentIdx, dimension.size());
+#endif
     for (size_t i = 0; i < dimension[currentIdx]; ++i)
         if (currentIdx == dimension.size()-1)
             param_data.push_back(readString(ezc3d::DATA_TYPE::BYTE));
